@@ -23,6 +23,7 @@ package lineSearch
 
 /* -------------------------------------------------------------------------- */
 
+import "github.com/pbenner/autodiff/verifhook"
 import   "fmt"
 import   "math"
 
@@ -80,6 +81,7 @@ func zoom(f objective, alpha_lo, alpha_hi, y0, ylo, yhi, g0, glo float64, maxEva
   }
 
   for i := 0; i < maxEval; i++ {
+    verifhook.Tick("lineSearch.zoom")
 
     alpha_j = quadraticMin(alpha_lo, ylo, glo, alpha_hi, yhi)
 
@@ -141,11 +143,13 @@ func lineSearch(f objective,
   yj, gj, alpha_j := 0.0, 0.0, parameters.Alpha1
 
   for i := 0 ; i < maxEval; i++ {
+    verifhook.Tick("lineSearch.bracket")
     if alpha_j == 0.0 {
       return 0.0, fmt.Errorf("line search failed")
     }
     // decrease alpha_j until constraints are satisfied
     for !constraints(alpha_j) {
+      verifhook.Tick("lineSearch.constraints")
       alpha_j *= 0.5
     }
     yj, gj, err = f(alpha_j)
